@@ -38,21 +38,24 @@ ObsOK(S, o) ==
 
 Done == l > Len(CurT.steps)
 PreOK == ~Done /\ Pre(s, CurT.steps[l].op)
-StepOK == PreOK /\ ObsOK(Apply(s, CurT.steps[l].op), CurT.steps[l].obs)
 \* verdict: 1 accepted; 0 the observation at step l does not match; 2 the operation at step l is not
 \* enabled in the model (for a run: the observed outcome is not admitted)
-Code == IF Done THEN 1 ELSE IF PreOK THEN 0 ELSE 2
 TInit == s = Store(Traces[1].wf) /\ nops = 0 /\ lastop = NoOp /\ tid = 1 /\ l = 1 /\ tok = Tok0
-TStep == /\ StepOK
-         /\ s' = Apply(s, CurT.steps[l].op) /\ lastop' = CurT.steps[l].op /\ nops' = nops + 1
-         /\ tok' = tok \cup Pairs(Apply(s, CurT.steps[l].op), CurT.steps[l].obs)
-         /\ l' = l + 1 /\ tid' = tid
-TNextTrace == /\ ~StepOK
-              /\ PrintT("VERDICT " \o ToJson(<<tid, Code, l>>))
-              /\ tid < Len(Traces)
-              /\ tid' = tid + 1 /\ l' = 1 /\ s' = Store(Traces[tid + 1].wf) /\ nops' = 0
-              /\ lastop' = NoOp /\ tok' = Tok0
-TNext == TStep \/ TNextTrace
+NextTrace(code) ==
+  /\ PrintT("VERDICT " \o ToJson(<<tid, code, l>>))
+  /\ tid < Len(Traces)
+  /\ tid' = tid + 1 /\ l' = 1 /\ s' = Store(Traces[tid + 1].wf) /\ nops' = 0
+  /\ lastop' = NoOp /\ tok' = Tok0
+TStep ==
+  IF Done THEN NextTrace(1)
+  ELSE IF ~PreOK THEN NextTrace(2)
+  ELSE LET A == Apply(s, CurT.steps[l].op) IN
+       IF ObsOK(A, CurT.steps[l].obs)
+       THEN /\ s' = A /\ lastop' = CurT.steps[l].op /\ nops' = nops + 1
+            /\ tok' = tok \cup Pairs(A, CurT.steps[l].obs)
+            /\ l' = l + 1 /\ tid' = tid
+       ELSE NextTrace(0)
+TNext == TStep
 TSpec == TInit /\ [][TNext]_tvars
 \* action properties of FileValues.tla restated over the trace run (a new trace resets the store)
 TContentBytesOnly ==
